@@ -6,6 +6,11 @@ compares with the real `render` / `render_block`.
 Property theorems only (helper lemmas: Lemmas/Vm*.lean).
 -/
 import TeraModel.Lemmas.VmTotal
+import TeraModel.Lemmas.VmSim
+import TeraModel.Lemmas.VmRefine
+import TeraModel.Lemmas.VmUtf8
+import TeraModel.Lemmas.VmWellFormed
+import TeraModel.Props.C07
 namespace Tera.C07Vm
 open Tera Tera.Vm
 
@@ -91,5 +96,259 @@ theorem vm_step_total (rec : VmCtx → Chunk → State → RunRes) (env : Env) (
   case negative => exact stepNegative_noPanic ht harity hsp
   case loadPath p => exact stepLoadPath_noPanic p ht hnames (hpath p (Or.inl rfl))
   case writePath p => exact stepWritePath_noPanic p ht hnames (hpath p (Or.inr rfl))
+
+/-- `vm_no_panic_wellformed`: in an environment whose chunks all passed the bytecode checker
+(`EnvOK`: `checkChunk` — Model/VmCheck.lean, the checker of Model/WellFormed.lean extended with
+the per-slot facts its soundness at value level needs: "is a map" for kwargs, "has a span" for the
+operands an error is reported on; run by the harness on every real listing), with built-ins that
+do not panic, `interpret` on a checked chunk from any state with a consistent block stack — any
+values on the stacks underneath, any context, any fuel — ends in `done`, an error class,
+`unmodelled` (a built-in outside the model) or out-of-fuel: never in a panic. -/
+theorem vm_no_panic_wellformed (env : Env) (hE : EnvOK env) (fuel : Fuel) (vm : VmCtx) (c : Chunk)
+    (st : State) (hg : Good env vm c st) : ∀ site, run fuel env vm c st ≠ .panic site := by
+  intro site heq
+  have := (interp_sound hE fuel.steps fuel.depth vm c st hg).1
+  unfold run at heq
+  rw [heq] at this
+  simp [RunRes.isPanic] at this
+
+/-- The same for the two entry points `Tera::render` / `Tera::render_block`: every template,
+every block name, every context and global context, every fuel. -/
+theorem vm_render_no_panic (env : Env) (hE : EnvOK env) (fuel : Fuel) (name : String)
+    (block : Option String) (ctx globalCtx : Ctx) :
+    ∀ site, render fuel env name block ctx globalCtx ≠ .panic site := by
+  intro site
+  unfold render
+  cases htpl : env.template name with
+  | none => simp
+  | some tpl =>
+    simp only
+    cases hlm : lineageMissing tpl block with
+    | true => simp
+    | false =>
+      simp only [Bool.false_eq_true, ↓reduceIte]
+      have hT := hE.1 name tpl htpl
+      cases hc : entryChunk env tpl with
+      | none => simp
+      | some chunk =>
+        simp only
+        have hck : checkChunk env chunk = true := by
+          unfold entryChunk at hc
+          split at hc
+          · rename_i parent _
+            cases hb : env.template parent with
+            | none => rw [hb] at hc; cases hc
+            | some btpl =>
+              rw [hb] at hc; simp only [Option.map_some, Option.some.injEq] at hc
+              subst hc; exact (hE.1 parent btpl hb).1
+          · simp only [Option.some.injEq] at hc; subst hc; exact hT.1
+        have hg : Good env { template := tpl, autoescapeOverride := none, depth := 0 } chunk
+            (entryState block ctx globalCtx) :=
+          ⟨hck, hT, by intro cur h; simp [entryState, State.fresh] at h,
+           by intro e he; simp [entryState, State.fresh, blocksSig] at he⟩
+        have := vm_no_panic_wellformed env hE fuel _ _ _ hg
+        intro heq
+        cases hr : run fuel env { template := tpl, autoescapeOverride := none, depth := 0 } chunk
+            (entryState block ctx globalCtx) with
+        | panic s => exact this s hr
+        | _ => rw [hr] at heq; simp [outcomeOf] at heq
+
+/-- T3 `vm_stacks_restored`: when a nested `interpret` (`RenderBlock`, `super()`, `Include`, a
+component) on a checked chunk returns normally, it leaves the caller's state as it found it, as
+far as the VM's stack discipline goes: the value stack is identical (values and span ranges), the
+loop stack has the same height with the same `end_ip`s, the capture stack the same height, the
+current block and the names and lineages on the block stack are the same.  (A block chunk may
+write into the caller's innermost capture buffer and `{% set %}` into the caller's innermost
+loop: contents of those two are not preserved, by design.) -/
+theorem vm_stacks_restored (env : Env) (hE : EnvOK env) (fuel : Fuel) (vm : VmCtx) (c : Chunk)
+    (st st2 : State) (hg : Good env vm c st) (h : run fuel env vm c st = .done st2) :
+    st2.stack = st.stack ∧
+    st2.scope.forLoops.map (·.endIp) = st.scope.forLoops.map (·.endIp) ∧
+    st2.captures.length = st.captures.length ∧
+    st2.currentBlockName = st.currentBlockName ∧
+    st2.blocks.map (fun e => (e.1, e.2.1)) = st.blocks.map (fun e => (e.1, e.2.1)) := by
+  have hf := (interp_sound hE fuel.steps fuel.depth vm c st hg).2 st2 h
+  exact ⟨hf.stack, hf.loops, hf.caps, hf.cur, hf.blocks⟩
+
+/-- Corollary at top level (what `take_final_stacks() == (0,0,0)` observes on the real VM): a
+render that succeeds ends with the three stacks empty. -/
+theorem vm_stacks_empty_at_end (env : Env) (hE : EnvOK env) (fuel : Fuel) (vm : VmCtx) (c : Chunk)
+    (scope : Scope) (hs : scope.forLoops = []) (st2 : State)
+    (hg : Good env vm c (State.fresh scope)) (h : run fuel env vm c (State.fresh scope) = .done st2) :
+    st2.stack = [] ∧ st2.scope.forLoops = [] ∧ st2.captures = [] := by
+  obtain ⟨h1, h2, h3, _, _⟩ := vm_stacks_restored env hE fuel vm c _ st2 hg h
+  refine ⟨h1, ?_, ?_⟩
+  · simpa [State.fresh, hs] using h2
+  · simpa [State.fresh] using h3
+
+/-- `vm_checked_chunk_wellformed`: the value-level checker refines the checker of
+Model/WellFormed.lean.  If `c` is a listing (Model/InstrWire.lean) that decodes to the typed chunk
+`code`, and `table` is a certificate the value-level checker verified for `code`, then `table`
+with the extra flags forgotten is a certificate WellFormed's `verify` accepts for `c` — hence
+everything `verify_sound` (Props/C07.lean) says about the abstract stack machine holds for it:
+no underflow of the three stacks on any path, jumps stay inside the chunk, all three stacks empty
+at the end.  (`vm_no_panic_wellformed` is the value-level strengthening of that.) -/
+theorem vm_checked_chunk_wellformed (parseConst : String → Option Value) (c : List Entry)
+    (code : List VEntry) (hdec : decodeCode parseConst c = some code) (table : List (Option ASt))
+    (h : verify code table = true) :
+    WellFormed.verify c (projTable table) = true ∧
+    (∀ pc s, C07.Reach c pc s → ¬ C07.Panics c pc s) ∧
+    (∀ pc s, C07.Reach c pc s → pc ≤ c.length) ∧
+    (∀ pc s, C07.Reach c pc s → c.length ≤ pc → s = WellFormed.St.empty) := by
+  have hv := verify_projects parseConst c code hdec table h
+  exact ⟨hv, C07.verify_sound c (projTable table) hv⟩
+
+/-! ### T2: the output is valid UTF-8 -/
+
+/-- T2 `vm_output_valid_utf8`: the bytes of whatever `render` / `render_block` return — the UTF-8
+encoding of the model's text — are valid UTF-8 (`std::str::from_utf8(..).is_ok()`, the predicate
+of Model/Escape.lean), and the strict decoder `String::from_utf8` (Model/Contrib.lean) gives the
+text back: the `String::from_utf8(output)?` at the end of `render` cannot fail. -/
+theorem vm_output_valid_utf8 (fuel : Fuel) (env : Env) (name : String) (block : Option String)
+    (ctx globalCtx : Ctx) (text : List Char)
+    (_h : render fuel env name block ctx globalCtx = .ok text) :
+    Escape.utf8Valid (Wire.utf8Encode text) = true ∧
+    Contrib.utf8Decode (Wire.utf8Encode text) = some text :=
+  ⟨utf8Valid_encode text, Contrib.utf8Decode_encode text⟩
+
+/-- T2 `vm_write_bytes`: what one `WriteTop` / `WritePath` appends (the tail 335-354 / 864-882),
+as bytes: the UTF-8 of `Value::format`, passed through the byte-level `escape_html` of the source
+(the table the translator extracts) exactly when autoescape is on and the value is not safe; and
+those bytes are valid UTF-8 — the two `from_utf8_unchecked` of the scratch buffer are sound, and
+escaping preserves validity. -/
+theorem vm_write_bytes (env : Env) (vm : VmCtx) (v : Value) :
+    let text := v.format env.fmtF64
+    let written := if !vm.autoescape || v.isSafe then text else escapeHtml text
+    Wire.utf8Encode written
+      = (if !vm.autoescape || v.isSafe then Wire.utf8Encode text
+         else Escape.escapeHtml (Wire.utf8Encode text)) ∧
+    Escape.utf8Valid (Wire.utf8Encode text) = true ∧
+    Escape.utf8Valid (Wire.utf8Encode written) = true := by
+  refine ⟨?_, utf8Valid_encode _, utf8Valid_encode _⟩
+  by_cases h : (!vm.autoescape || v.isSafe) = true
+  · rw [if_pos h, if_pos h]
+  · rw [if_neg h, if_neg h]; exact (escape_bytes_agree _).symm
+
+/-! ### T4: the fragment of C09's optimiser proof -/
+
+/-- the five variable-path instructions, as `Instr` of Model/Instr.lean -/
+def pathFragment : VInstr → Option Instr
+  | .loadName n => some (.loadName n)
+  | .loadAttr a false => some (.loadAttr a)
+  | .writeTop => some .writeTop
+  | .loadPath p => some (.loadPath p)
+  | .writePath p => some (.writePath p)
+  | _ => none
+
+/-- the control-flow instructions ChunkVm models exactly -/
+def flowFragment : VInstr → Option Instr
+  | .jump t => some (.jump t)
+  | .popJumpIfFalse t => some (.popJumpIfFalse t)
+  | .jumpIfFalseOrPop t => some (.jumpIfFalseOrPop t)
+  | .jumpIfTrueOrPop t => some (.jumpIfTrueOrPop t)
+  | .iterate t => some (.iterate t)
+  | .break_ => some (.other "Break" "")
+  | _ => none
+
+/-- T4a `vm_refines_pathvm`: on the five path instructions, one turn of the value-level VM is the
+corresponding arm of Model/PathVm.lean instantiated with the value-level primitives (`pathEnv`),
+seen through `absStack` (a slot's span range ↦ "`expand_span` finds a span"): same new stack and
+state, error for error, panic for panic. -/
+theorem vm_refines_pathvm (rec : VmCtx → Chunk → State → RunRes) (env : Env) (vm : VmCtx) (c : Chunk)
+    (vi : VInstr) (i : Instr) (spans : List Span) (pc : Nat) (st : State)
+    (hi : pathFragment vi = some i) (hcode : c.code[pc]? = some (vi, spans))
+    (ht : reportTargetOk env vm c = true) :
+    ∃ r, PathVm.step? (pathEnv env vm) (i, spans) (absStack c st.stack) { st with stack := [] } = some r ∧
+      ResAgree c pc (step rec env vm c (vi, spans) pc st) r := by
+  cases vi <;> simp only [pathFragment, Option.some.injEq] at hi <;> try cases hi
+  case loadName n => exact ⟨_, rfl, loadName_refines n hcode⟩
+  case loadAttr a opt =>
+    cases opt
+    · simp only [Option.some.injEq] at hi; subst hi
+      exact ⟨_, rfl, loadAttr_refines a ht hcode⟩
+    · cases hi
+  case writeTop => exact ⟨_, rfl, writeTop_refines ht⟩
+  case loadPath p => exact ⟨_, rfl, loadPath_refines p ht hcode⟩
+  case writePath p => exact ⟨_, rfl, writePath_refines p ht hcode⟩
+
+/-- T4b `vm_refines_chunkvm_control`: on the four jumps, `Iterate` and `Break`, one turn of the
+value-level VM is `ChunkVm.step` of Model/ChunkVm.lean instantiated with the value-level
+primitives (`vmSem`; whatever `other` is), seen through `cfgOf` (the `end_ip`s of the loop stack
+are ChunkVm's `ends`, the rest of the state its `σ`). -/
+theorem vm_refines_chunkvm_control (rec : VmCtx → Chunk → State → RunRes) (env : Env) (vm : VmCtx)
+    (c : Chunk) (other : String → String → List (Value × Bool) → State → PathVm.Res Value State)
+    (vi : VInstr) (i : Instr) (spans : List Span) (pc : Nat) (st : State)
+    (hi : flowFragment vi = some i) :
+    StepAgree c (step rec env vm c (vi, spans) pc st)
+      (ChunkVm.step (vmSem env vm other) (i, spans) pc (cfgOf c st)) := by
+  cases vi <;> simp only [flowFragment, Option.some.injEq] at hi <;> try cases hi
+  case jump t => exact jump_refines t
+  case popJumpIfFalse t => exact popJumpIfFalse_refines t
+  case jumpIfFalseOrPop t => exact jumpIfFalseOrPop_refines t
+  case jumpIfTrueOrPop t => exact jumpIfTrueOrPop_refines t
+  case iterate t => exact iterate_refines t
+  case break_ => exact break_refines
+
+/-- The two hypotheses C09's `optimize_preserves` makes about the value parameters hold for the
+value-level instance: `undefined` is undefined, and an undefined value has no attributes. -/
+theorem vm_instance_meets_optimize_hypotheses (env : Env) (vm : VmCtx) :
+    (pathEnv env vm).isUndef (pathEnv env vm).undef = true ∧
+    ∀ v a, (pathEnv env vm).isUndef v = true → (pathEnv env vm).getAttr v a = none :=
+  ⟨pathEnv_undef env vm, pathEnv_undef_attr env vm⟩
+
+/-! ### the hypotheses are satisfiable, and the model computes (spot checks; the harness runs the
+checker and the model on every real listing) -/
+
+/-- `{{ x }}{{ 1 | f }}{% for v in x %}{{ v }}{% endfor %}` with the spans the compiler gives -/
+def exChunk : Chunk :=
+  { name := "t",
+    code := [(.writePath ["x"], ["s"]), (.loadConst (.u64 1), ["s"]), (.buildMap 0, []),
+             (.applyFilter "f", ["s"]), (.writeTop, []),
+             (.loadName "x", ["s"]), (.startIterate false false, []), (.storeLocal "v", []),
+             (.iterate 11, []), (.writePath ["v"], ["s"]), (.jump 8, []), (.popLoop, [])] }
+
+def exOps : FloatOps :=
+  { add := fun a _ => a, sub := fun a _ => a, mul := fun a _ => a, div := fun a _ => a,
+    remEuclid := fun a _ => a, divEuclid := fun a _ => a, powf := fun a _ => a, neg := fun a => a }
+
+def exEnv : Env :=
+  { templates := [("t", { name := "t", chunk := exChunk, autoescape := true, parents := [],
+                          blockLineage := [], components := [] })],
+    components := [],
+    hasFilter := fun n => n == "f", hasTest := fun _ => false, hasFunction := fun _ => false,
+    callFilter := fun _ v _ => .ok v, filterIsSafe := fun _ => false,
+    callTest := fun _ _ _ => .err, callFunction := fun _ _ => .err, functionIsSafe := fun _ => false,
+    F := exOps, fmtF64 := fun _ => [] }
+
+example : checkChunk exEnv exChunk = true := by decide +kernel
+
+/-- `EnvOK` has instances -/
+example : EnvOK exEnv := by
+  refine ⟨?_, ?_, ⟨fun _ _ _ => rfl, fun _ _ _ => rfl, fun _ _ => rfl⟩⟩
+  · intro n tpl h
+    simp only [Env.template, exEnv, assoc] at h
+    split at h
+    · simp only [Option.some.injEq] at h; subst h
+      exact ⟨by decide +kernel, by intro b lin h; simp [assoc] at h⟩
+    · cases h
+  · intro n d ch h; simp [exEnv, assoc] at h
+
+/-- the model renders (autoescape on: the string is escaped, the loop runs over its characters) -/
+example : (match render ⟨3, 100⟩ exEnv "t" none [("x", .str false ['<', 'a'])] [] with
+    | .ok text => text == "&lt;a1&lt;a".toList
+    | _ => false) = true := by decide +kernel
+
+/-- an operand of an unexpected kind is an error class, not a panic -/
+example : (match render ⟨3, 100⟩ exEnv "t" none [("x", .u64 7)] [] with
+    | .err .iteration => true
+    | _ => false) = true := by decide +kernel
+
+/-- a chunk whose `ApplyFilter` would find no kwargs map is refused by the checker -/
+example : checkChunk exEnv { name := "t", code := [(.loadName "x", ["s"]), (.loadName "y", ["s"]),
+    (.applyFilter "f", ["s"]), (.writeTop, [])] } = false := by decide
+
+/-- … and so is one that could report an error on an operand without a span -/
+example : checkChunk exEnv { name := "t", code := [(.loadName "x", []), (.writeTop, [])] } = false := by
+  decide
 
 end Tera.C07Vm
